@@ -179,6 +179,20 @@ static void run_case(const CaseId& c, bool with_cache_histories) {
                         default: w.r2->convex_hull(hull, cache); good &= check_hull(x, hull, Q2); hull.clear();
                     }
                 }
+                if (good) {
+                    // release the entries with GeometryInfo::clear() but keep the map, then ask for both boxes again through it:
+                    // a cleared entry must be recomputed, not trusted
+                    for (MapItem<GeometryInfo>* it = cache.next(NULL); it; it = cache.next(it)) it->value.clear();
+                    Ctx x{&c, "TOP", hist + ",clear-entries,0"};
+                    GeometryInfo gi = w.top->bounding_box(cache);
+                    good &= gi.bounding_box_valid && check_bbox(x, gi.bounding_box_min, gi.bounding_box_max, Qt);
+                    Ctx x2{&c, "ref TOP->MID", hist + ",clear-entries,0,5"};
+                    Array<Vec2> hull = {};
+                    w.r2->convex_hull(hull, cache);
+                    good &= check_hull(x2, hull, Q2);
+                    hull.clear();
+                    R->count("cache_reuse_after_clear");
+                }
                 free_cache(cache);
                 R->count("cache_histories");
                 if (!good) R->count("cache_histories_failed");
